@@ -171,6 +171,8 @@ class Recorder:
     def __init__(self, scenario: dict, seed: int = 0) -> None:
         self.sc = scenario
         self.net = simnet.Net(seed=seed, record_bytes=False)
+        # the periodic purge takes a moment: a second read of the clock inside it returns a millisecond more
+        self.net.skew_in = {'_async_cache_cleanup'}
         self.events: List[dict] = []
         self.probes = probe_objects()
         self.did: Dict[bytes, int] = {}
